@@ -132,6 +132,7 @@ func RunTimedWorld(r sim.Src, mons []*sim.Mon, keepLog bool, sh TimedShape) *sim
 		if r.Intn("phaseskew", 3) == 0 {
 			phaseSkew = drawPhaseSkew(r, ids)
 		}
+		txLag := r.Intn("txlag", 3) == 0 // the pools differ: backups have to ask for proposed transactions and are handed them promptly
 		o.Heights = 3 + r.Intn("heights", 4)
 		o.DupPct = []int{0, 10, 40}[r.Intn("dup", 3)]
 		o.Horizon = time.Duration(o.Heights+3) * tpb * 3
@@ -140,6 +141,12 @@ func RunTimedWorld(r sim.Src, mons []*sim.Mon, keepLog bool, sh TimedShape) *sim
 			o.InitialTxs = 40 // pools never run dry: the extension must stay invisible
 		} else {
 			o.InitialTxs = r.Intn("inittx", 3)
+			if txLag {
+				// (not together with the extension: a primary whose pool is empty waits for the maximum while
+				// backups that hold transactions do not - pools that differ for good are not a synchronous network)
+				o.TxLag = true
+				o.InitialTxs += 1 + r.Intn("lagtx", 6)
+			}
 		}
 	case "c16":
 		o.Heights = 3 + r.Intn("heights", 3)
@@ -273,6 +280,9 @@ func RunTimedWorld(r sim.Src, mons []*sim.Mon, keepLog bool, sh TimedShape) *sim
 	w := sim.NewWorld(cfg, r, nil, watch, mons, keepLog)
 	if lateTx {
 		w.Stat("c16_tx_during_round")
+	}
+	if o.TxLag {
+		w.Stat("tx_lag")
 	}
 	if phaseSkew != nil {
 		w.PhaseRank = phaseSkew
